@@ -309,6 +309,63 @@ def _cclayers_chunk(chunk):
     return len(chunk), nt, fails
 
 
+def _langargs_chunk(chunk):
+    """add_global_arguments / add_project_arguments called several times, each call naming one or several languages: the compiler of
+    a language receives exactly the arguments of the calls that name THAT language, each once (a C and a C++ executable, both
+    compilers behind the recording wrapper)"""
+    repo = os.environ.get('VERIF_REPO', '/repo')
+    fails, nt = [], 0
+    for seed in chunk:
+        rnd = random.Random(seed)
+        lines = ["project('la', 'c', 'cpp')"]
+        want = {'c': [], 'cpp': []}
+        for k in range(rnd.randint(2, 5)):
+            fn = rnd.choice(['add_project_arguments', 'add_global_arguments'])
+            langs = rnd.choice([['c', 'cpp'], ['cpp', 'c'], ['c'], ['cpp'], ['c', 'cpp']])
+            if k == 0 and rnd.random() < 0.6:
+                langs = ['c', 'cpp']
+            arg = f'-DU_CALL{k}={k}'
+            lines.append(f"{fn}({mstr(arg)}, language: [" + ', '.join(mstr(l) for l in langs) + '])')
+            for l in langs:
+                want[l].append(arg)
+        lines += ["executable('ec', 'ec.c')", "executable('ex', 'ex.cpp')"]
+        d = tempfile.mkdtemp(prefix='c03la')
+        try:
+            src, build = os.path.join(d, 'src'), os.path.join(d, 'b')
+            os.makedirs(src)
+            open(os.path.join(d, 'ccdump.py'), 'w').write(CCDUMP)
+            wr = {}
+            for tool, real in (('CC', 'gcc'), ('CXX', 'g++')):
+                wr[tool] = os.path.join(d, 'wrap' + tool)
+                open(wr[tool], 'w').write((CCWRAP % (sys.executable, d)).replace('gcc', real) if real != 'gcc' else CCWRAP % (sys.executable, d))
+                os.chmod(wr[tool], 0o755)
+            open(os.path.join(src, 'ec.c'), 'w').write('int main(void) { return 0; }\n')
+            open(os.path.join(src, 'ex.cpp'), 'w').write('int main() { return 0; }\n')
+            open(os.path.join(src, 'meson.build'), 'w').write('\n'.join(lines) + '\n')
+            env = dict(os.environ, NINJA=stub_ninja(d), CC=wr['CC'], CXX=wr['CXX'])
+            env.pop('C03_DUMP', None)
+            r = subprocess.run([sys.executable, os.path.join(repo, 'meson.py'), 'setup', build, src], capture_output=True, text=True, env=env)
+            case = {'generator_seed': seed, 'meson.build': lines}
+            if r.returncode != 0:
+                fails.append({'case': case, 'stage': 'argv-languages', 'detail': 'setup failed: ' + (r.stdout + r.stderr)[-300:]})
+                continue
+            rules, builds = parse_ninja(open(os.path.join(build, 'build.ninja'), encoding='utf-8').read())
+            for j, b in enumerate(x for x in builds if x['rule'] in ('c_COMPILER', 'cpp_COMPILER')):
+                lang = b['rule'].split('_')[0]
+                nt += 1
+                dump = os.path.join(d, f'cc{j}.json')
+                subprocess.run(['/bin/sh', '-c', statement_command(rules, b)], cwd=build, capture_output=True, text=True, env=dict(env, C03_DUMP=dump), timeout=60)
+                if not os.path.exists(dump):
+                    fails.append({'case': case, 'stage': 'argv-languages', 'detail': f"{b['outs']}: the compiler driver was not started"})
+                    continue
+                got = [a for a in json.load(open(dump)) if a.startswith('-DU_')]
+                if sorted(got) != sorted(want[lang]):
+                    fails.append({'case': case, 'stage': 'argv-languages', 'detail': f'the {lang} compiler receives the user arguments {got!r}; the build definition gives {lang} {want[lang]!r} (each once)'})
+        finally:
+            shutil.rmtree(d, ignore_errors=True)
+    return len(chunk), nt, fails
+
+
 def stub_ninja(d):
     p = os.path.join(d, 'stub', 'ninja')
     os.makedirs(os.path.dirname(p), exist_ok=True)
@@ -411,11 +468,17 @@ def run(REG, tier, seed, jobs):
     clpart = {'name': 'C03/bounded/argument-layers-per-target-flavour', 'function': 'meson setup (C project, gcc behind a recording wrapper): global / project / per-target / per-flavour arguments',
               'bound': f'{k} generated C projects of 3-5 targets (executable, static / shared / both libraries, library() under each default_library) with global, project, per-target c_args and c_static_args / c_shared_args: every compile statement executed, the -DU_* arguments it receives compared with what the build definition gives that flavour of that target',
               'evaluations': ev3, 'distinct_nontrivial': nt3, 'rule': 'every compile statement', 'exhaustive': False, 'failures': fails3}
-    return {'parts': [ccpart, clpart, {'name': 'C03/bounded/argv-end-to-end-through-meson-setup', 'function': 'meson setup (ninja back end, stub ninja): custom_target / run_target / test commands',
+    q = 10 if tier == 'quick' else 150
+    ev4, nt4, fails4 = pmap(_langargs_chunk, chunked(iter([seed * 32452843 + i for i in range(q)]), 1), jobs)
+    lapart = {'name': 'C03/bounded/arguments-per-language', 'function': 'meson setup (C and C++ executable, gcc / g++ behind a recording wrapper): add_global_arguments / add_project_arguments',
+              'bound': f'{q} generated projects: 2-5 calls of add_project_arguments / add_global_arguments, each naming one or both of c / cpp (the first one mostly both); both compile statements executed, the -DU_* arguments each compiler receives compared with the calls that name its language',
+              'evaluations': ev4, 'distinct_nontrivial': nt4, 'rule': 'every compile statement', 'exhaustive': False, 'failures': fails4}
+    return {'parts': [ccpart, clpart, lapart, {'name': 'C03/bounded/argv-end-to-end-through-meson-setup', 'function': 'meson setup (ninja back end, stub ninja): custom_target / run_target / test commands',
                        'bound': f'{n} generated projects x 29 commands (5 of them pickled commands differing only in their argument boundaries): 1-3 arguments over {len(ARGS)} strings (blanks, quotes, $, #, ;, globs, backslashes, non-ASCII, tab, newline, ...) in 6 modes (plain, capture, env, feed, run_target, test)',
                        'evaluations': ev, 'distinct_nontrivial': nt, 'rule': 'every command', 'exhaustive': False, 'failures': fails}]}
 
 
 CHECKS = {'C03/bounded/compiler-and-linker-argv-through-meson-setup': (_cc_chunk, lambda c: c['generator_seed']),
           'C03/bounded/argument-layers-per-target-flavour': (_cclayers_chunk, lambda c: c['generator_seed']),
+          'C03/bounded/arguments-per-language': (_langargs_chunk, lambda c: c['generator_seed']),
           'C03/bounded/argv-end-to-end-through-meson-setup': (_argv_chunk, lambda c: c['generator_seed'])}
